@@ -21,7 +21,9 @@ from ..zoo import surfaces, volumes, c07_planar
 ID = "C07"
 RULE = ("inputs: (tri) certified oriented manifold triangle surfaces from the surface zoo, jittered to generic position, min corner angle "
         ">= 3 deg; (poly) quad / polygon / mixed surfaces from the surface zoo (unjittered) and from the planar-face zoo (prisms, frusta, "
-        "pyramids, antiprisms, dodecahedron, star-merged planar Delaunay) - face area / normal judged only on planar strictly convex faces; "
+        "pyramids, antiprisms, dodecahedron, star-merged planar Delaunay) - face area / normal judged only on planar strictly convex faces - "
+        "and, one third, small surfaces carrying planar simple NON-convex faces (notched pentagon, dart quad, L, arrow, T, U, star-like 5..8-gons; "
+        "bare, as prism / cup lids, with flaps; every cyclic vertex order of the face), judged against the shoelace (Newell) area and normal; "
         "(tet) conforming tetrahedral meshes from the volume zoo with jitter.  Per input: every quantity function x persistent x dense x "
         "default/custom name x weighting x zero_border on fresh meshes against the numpy reference, the identities, the six interpolation "
         "routines on constant attributes, one shared-mesh pass in random order, a rigidly moved + renumbered + face-rotated copy and a "
@@ -41,14 +43,21 @@ REQUIRED = {
     "options/persistent_dense_agree": 3000, "options/attributes_left_behind": 8000,
     "history": 30000, "history/cotangent": 2500, "history/cotan_weights": 1600, "history/angle_defects": 600,
     "history/total_area": 60, "history/mean_cell_volume": 15,
+    "history/vertex_normals:uniform:custom_fnormals": 1500, "history/vertex_normals:area:custom_fnormals": 1500,
+    "history/vertex_normals:angle:custom_fnormals": 1500,
+    "ref/face_area:nonconvex_face": 80, "ref/face_normals:nonconvex_face": 150, "ref/total_area:nonconvex_faces": 5,
+    "coverage/ref:face_area_on_nonconvex_faces_star_shaped_from_vertex_mean": 60,
     "reuse": 15000,
 }
 CASE_TIMEOUT = {"quick": 240.0, "thorough": 600.0}
 ASSUMPTIONS = [
     "inputs are non-degenerate: triangle corner angles >= 3 deg, polygon corners between 2.9 and 177.1 deg, |tet volume| >= 1e-7, "
     "max|coordinate| / min edge length <= 1e6 - this is what justifies the relative 1e-9 tolerance (conditioning <= ~4e3)",
-    "face area and face normal of a face with more than 3 vertices are only judged when the face is planar (1e-13 relative) and strictly convex; "
-    "vertex normals only where all incident faces are judged and |sum w n| >= 0.05 sum w",
+    "face area and face normal of a face with more than 3 vertices are only judged when the face is planar (1e-13 relative) and either strictly "
+    "convex or a simple non-convex polygon with clearly convex / clearly reflex corners (area and oriented normal by Newell's formula; "
+    "non-convex quads and polygons that are not star-shaped around their vertex mean are reported under separate ':nonconvex_face' ops); the "
+    "corner angle at a reflex corner is not judged; vertex normals only where all incident faces are triangles or planar convex and "
+    "|sum w n| >= 0.05 sum w",
     "element ids are those of the mesh under test (edge e = mesh.edges[e], corner c = (face_corners[c], face_corners.adj(c))); the monitor "
     "does not fix any numbering convention itself",
     "helper attributes the library caches by design (face_corners 'angles' for angle_defects, face_corners 'cotan' for cotan_weights, faces "
@@ -116,7 +125,7 @@ def cases(seed, tier):
                  "vrows": vrows[k % 4], "irows": irows[(k // 4) % 3],
                  "extreme_scale": (i % 4 == 3), "sample": i in (1, 2)}
             if kind == "poly":
-                d["source"] = "planar" if i % 2 == 0 else "zoo"
+                d["source"] = ["planar", "zoo", "nonconvex"][i % 3]
             if kind == "tet":
                 d["max_size"] = [1, 2, 2, 3][i % 4] if tier == "quick" else [1, 2, 3, 3][i % 4]
                 d["jitter"] = [0.0, 0.02, 0.1, 0.2][(i // 2) % 4]
@@ -157,6 +166,10 @@ def draw_surface(desc):
             z = surfaces.make(s, tri_only=True, generic=True, max_size=desc["max_size"])
         elif desc.get("source") == "planar":
             z = c07_planar.make(s)
+        elif desc.get("source") == "nonconvex":
+            z = c07_planar.make(s, nonconvex=True)
+            if not any(geomq.SurfaceRef(z["V"], z["F"]).face_nc):
+                continue
         else:
             z = surfaces.make(s, poly_only=True, generic=False, max_size=desc["max_size"])
         try:
@@ -452,16 +465,49 @@ def judge_surface(ctx, monitor, fn, extras, arr, R, env):
         exp = np.array([(V[a] + V[b]) / 2 for a, b in env.E])
         compare(ctx, monitor, op, arr, exp, REL * (R.maxabs + R.lmax), what="(p+q)/2")
     elif fn == "face_area":
-        compare(ctx, monitor, op, arr, R.area, REL * K * R.fdiam ** 2, judged=R.face_ok, what="polygon area")
+        compare(ctx, monitor, op, arr, R.area, REL * K * R.fdiam ** 2, judged=R.area_regular,
+                what="area of the planar polygon (triangle, convex face, or non-convex face star-shaped around its vertex mean)")
+        nstar = int(sum(1 for a, b in zip(R.face_nc, R.area_regular) if a and b))
+        if nstar:
+            ctx.obs("coverage", monitor + ":face_area_on_nonconvex_faces_star_shaped_from_vertex_mean", nstar)
+        hard = np.array(R.area_hard)
+        if hard.any():
+            # planar simple non-convex quads / polygons that are not star-shaped around the mean of their vertices:
+            # the shoelace (Newell) area is just as unambiguous there; kept under its own op so that it is told apart
+            hop = op + ":nonconvex_face"
+            ctx.obs(monitor, hop, int(hard.sum()))
+            tolh = REL * K * R.fdiam ** 2
+            with np.errstate(invalid="ignore"):
+                badh = hard & ~(np.abs(arr - R.area) <= tolh)
+            if badh.any():
+                i = int(np.argmax(badh))
+                nq = len(env.FL[i])
+                ctx.violation(monitor, hop, "area_differs_from_shoelace_on_%s" % ("nonconvex_quad" if nq == 4 else "polygon_not_star_shaped_from_its_vertex_mean"),
+                              "face_area of a planar simple non-convex face is not its shoelace area", face=env.FL[i],
+                              points=R.V[env.FL[i]], got=arr[i], expected=R.area[i], n_bad=int(badh.sum()), n_judged=int(hard.sum()))
     elif fn == "face_normals":
         compare(ctx, monitor, op, arr, R.normal, REL * K * 10, judged=R.face_ok, what="unit normal of the oriented face")
+        nc = np.array(R.face_nc)
+        if nc.any():
+            hop = op + ":nonconvex_face"
+            ctx.obs(monitor, hop, int(nc.sum()))
+            with np.errstate(invalid="ignore"):
+                badn = nc & ~(np.max(np.abs(arr - R.normal), axis=1) <= REL * K * 10)
+            if badn.any():
+                neg = bool(np.all(np.max(np.abs(arr[badn] + R.normal[badn]), axis=1) <= REL * K * 10))
+                i = int(np.argmax(badn))
+                ctx.violation(monitor, hop, "opposite_normal_on_planar_nonconvex_face" if neg else "values_differ",
+                              "face_normals of a planar simple non-convex face is not the unit normal of the oriented face (Newell)",
+                              face=env.FL[i], points=R.V[env.FL[i]], got=arr[i], expected=R.normal[i], n_bad=int(badn.sum()), n_judged=int(nc.sum()))
     elif fn == "face_barycenter":
         compare(ctx, monitor, op, arr, R.fbary, REL * (R.maxabs + R.lmax), what="mean of the face's vertices")
     elif fn == "face_circumcenter":
         judge_circumcentres(ctx, monitor, op, arr, [V[f] for f in R.F], R.maxabs, K)
     elif fn == "corner_angles":
         exp = np.array([R.angle.get((f, v), np.nan) for v, f in env.CN])
-        compare(ctx, monitor, op, arr, exp, REL * 10, what="angle between the two face edges at the corner")
+        # at a reflex corner of a non-convex face "the" corner angle is ambiguous (interior angle > pi vs angle between the edges): not judged
+        jd = np.array([(f, v) not in R.reflex for v, f in env.CN])
+        compare(ctx, monitor, op, arr, exp, REL * 10, judged=jd, what="angle between the two face edges at the corner")
     elif fn == "cotangent":
         exp = np.array([R.cot.get((f, v), np.nan) for v, f in env.CN])
         compare(ctx, monitor, op, arr, exp, REL * 10 * (1 + exp ** 2), what="cotangent of the corner angle")
@@ -680,7 +726,7 @@ def globals_check(ctx, env, R, rng, kind):
     if kind == "surface":
         verdict("euler_characteristic", one("euler_characteristic", A.euler_characteristic, R.chi, 0.0),
                 "differs_from_V_minus_E_plus_F", "euler_characteristic(mesh) != V - E + F", expected=R.chi)
-        if R.all_faces_ok:
+        if R.all_area_regular:
             tolA = REL * 10 * float(np.sum(R.fdiam ** 2))
             verdict("total_area", one("total_area", A.total_area, R.total_area, tolA),
                     "differs_from_sum_of_face_areas", "total_area(mesh) is not the sum of the face areas", expected=R.total_area)
@@ -694,6 +740,14 @@ def globals_check(ctx, env, R, rng, kind):
             verdict("mean_face_area", one("mean_face_area", A.mean_face_area, R.mean_face_area, tolM, k),
                     "n_gt_count:differs_from_mean_of_all_faces", "mean_face_area(mesh, n>count) is not the mean of the (all) faces considered",
                     n=k, count=R.nF, expected=R.mean_face_area)
+        elif R.all_area_judged:
+            # some planar non-convex quads / not-star-shaped polygons: the sums are as unambiguous, kept under their own ops
+            tolA = REL * 10 * float(np.sum(R.fdiam ** 2))
+            verdict("total_area:nonconvex_faces", one("total_area", A.total_area, R.total_area, tolA),
+                    "differs_from_sum_of_shoelace_areas", "total_area(mesh) is not the sum of the (shoelace) face areas", expected=R.total_area)
+            tolM = REL * 10 * float(np.max(R.fdiam ** 2))
+            verdict("mean_face_area:nonconvex_faces", one("mean_face_area", A.mean_face_area, R.mean_face_area, tolM),
+                    "differs_from_mean_of_shoelace_areas", "mean_face_area(mesh) is not the mean (shoelace) face area", expected=R.mean_face_area)
         else:
             ctx.note("area_sums_not_judged(warped_faces)")
     else:
@@ -829,6 +883,7 @@ def history_pass(ctx, env, R, funcs, rng, judge):
         if fn == "vertex_normals":
             for w in ("uniform", "area", "angle"):
                 todo.append((fn, {"interpolation": w}))
+                todo.append((fn, {"interpolation": w, "_custom": True}))   # the caller's normals must win over any cached face "normals"
         elif fn == "angle_defects":
             todo += [(fn, {"zero_border": False}), (fn, {"zero_border": True})]
         else:
@@ -869,11 +924,39 @@ def history_pass(ctx, env, R, funcs, rng, judge):
         ok, _ = ctx.call("cell_volume", A.cell_volume, m, abort=False)
         if ok:
             glob("mean_cell_volume", R.mean_cell_volume, REL * 10 * float(np.max(R.cdiam ** 3)))
-    elif getattr(R, "all_faces_ok", False):
+    elif getattr(R, "all_area_regular", False):
         ok, _ = ctx.call("face_area", A.face_area, m, abort=False)
         if ok:
             glob("total_area", R.total_area, REL * 10 * float(np.sum(R.fdiam ** 2)))
             glob("mean_face_area", R.mean_face_area, REL * 10 * float(np.max(R.fdiam ** 2)))
+
+
+def custom_normals_after_cached_normals(ctx, env, R, rng):
+    """History: the SAME mesh object already carries the persistent face attribute "normals" (left by a default face_normals(mesh) or by
+    a persistent vertex_normals(mesh)); vertex_normals(custom_fnormals=...) must still interpolate the caller's field, for every weighting."""
+    import mouette as M
+    A = M.attributes
+    spec = SURF_FUNCS["vertex_normals"]
+    for w in ("uniform", "area", "angle"):
+        m = env.fresh()
+        first = rng.choice(["face_normals", "vertex_normals", "vertex_normals:" + w])
+        ctx.cls("custom_fnormals_after:" + first.split(":")[0])
+        if first == "face_normals":
+            ok, _ = ctx.call("face_normals", A.face_normals, m, abort=False)
+        elif first == "vertex_normals":
+            ok, _ = ctx.call("vertex_normals", A.vertex_normals, m, abort=False)
+        else:
+            ok, _ = ctx.call("vertex_normals", A.vertex_normals, m, abort=False, interpolation=w, persistent=True)
+        if not ok:
+            continue
+        ok, has = ctx.call("has_attribute", lambda: bool(m.faces.has_attribute("normals")), abort=False)
+        if not (ok and has):
+            ctx.note("cached_face_normals_absent_after_persistent_call")
+        extras = {"interpolation": w, "_custom": True}
+        name = rng.choice([None, "c07_custom_vn"])
+        arr = call_quantity(ctx, env, "vertex_normals", spec, rng.random() < 0.5, rng.random() < 0.5, name, extras, mesh=m, check_left=False)
+        if arr is not None:
+            judge_surface(ctx, "history", "vertex_normals", extras, arr, R, env)
 
 
 def metamorphic(ctx, monitor, env, envB, funcs, R, base, rng, maps, Q, t, s, tolm, judgeable):
@@ -941,7 +1024,7 @@ def transformed_globals(ctx, monitor, env, envB, R, Q, t, s, tolm, kind):
     items = [("mean_edge_length", 1), ("barycenter", "point")]
     if kind == "surface":
         items += [("euler_characteristic", 0)]
-        if R.all_faces_ok:
+        if R.all_area_regular:
             items += [("total_area", 2), ("mean_face_area", 2)]
     else:
         items += [("mean_cell_volume", 3), ("mean_face_area", 2)]
@@ -991,7 +1074,10 @@ def run_surface(desc, ctx):
     ctx.cls("arity:" + ",".join(map(str, ar)))
     ctx.cls("border:" + ("closed" if not R.border_edges else "bordered"))
     ctx.cls("chi:%d" % R.chi)
-    ctx.cls("faces_judged:" + ("all" if R.all_faces_ok else ("some" if any(R.face_ok) else "none")))
+    ctx.cls("faces_judged:" + ("all" if R.all_area_judged else ("some" if any(R.area_regular) else "none")))
+    if any(R.face_nc):
+        ctx.cls("nonconvex_faces:" + ("star_from_vertex_mean" if not any(R.area_hard) else
+                                      ("not_star_or_quad" if not any(a and b for a, b in zip(R.face_nc, R.area_regular)) else "both")))
     ctx.cls("min_angle_deg:%s" % ("3-10" if R.tri_min_angle < math.radians(10) else ("10-30" if R.tri_min_angle < math.radians(30) else ">=30")))
     sv = np.linalg.svd(V - V.mean(axis=0), compute_uv=False)
     planar = bool(sv[-1] <= 1e-9 * max(sv[0], 1e-300))
@@ -1008,6 +1094,9 @@ def run_surface(desc, ctx):
     globals_check(ctx, env, R, rng, "surface")
     interpolation_constants(ctx, env, rng, "surface")
     history_pass(ctx, env, R, SURF_FUNCS, rng, judge_surface)
+    custom_normals_after_cached_normals(ctx, env, R, rng)
+    if desc.get("source") == "nonconvex":
+        face_rotations(ctx, env, R, rng, desc)
 
     # vertex normals / face quantities that are not judged against the reference are not judged under motion either
     vn_ok = {}
@@ -1015,7 +1104,9 @@ def run_surface(desc, ctx):
         vn_ok[w] = np.array([R.vertex_normal(v, w)[1] >= 0.05 and R.vertex_normal(v, w)[2] for v in range(R.nV)])
 
     def judgeable(fn, extras):
-        if fn in ("face_area", "face_normals"):
+        if fn == "face_area":
+            return np.array(R.area_regular)
+        if fn == "face_normals":
             return np.array(R.face_ok)
         if fn == "vertex_normals":
             return vn_ok[extras["interpolation"]]
@@ -1070,6 +1161,37 @@ def run_surface(desc, ctx):
                     "face_0": f0, "face_0_points": np.round(V[f0], 6).tolist(), "library": lib, "reference": ref,
                     "also_compared": "%d quantity/option keys x 4 (persistent,dense) combos, identities, 6 interpolation routines, "
                                      "shared-mesh pass, rigid copy, scale %.3g" % (len(base), s)})
+
+
+def face_rotations(ctx, env, R, rng, desc):
+    """Every cyclic vertex order of (up to two) non-convex faces: a renumbering of the face that leaves the surface unchanged, so
+    face_area / face_normals / total_area / mean_face_area must not move."""
+    import mouette as M
+    A = M.attributes
+    targets = [fi for fi in range(R.nF) if R.face_nc[fi]][:2]
+    for fi in targets:
+        n = len(R.F[fi])
+        for r in range(1, n):
+            F2 = [list(f) for f in R.F]
+            F2[fi] = R.F[fi][r:] + R.F[fi][:r]
+            envR = Env(ctx, "surface", R.V, F2, desc["vrows"], desc["irows"])
+            if not envR.probe():
+                continue
+            for fn in ("face_area", "face_normals"):
+                arr = call_quantity(ctx, envR, fn, SURF_FUNCS[fn], rng.random() < 0.5, rng.random() < 0.5, None, {}, check_left=False)
+                judge_surface(ctx, "ref", fn, {}, arr, R, envR)
+            if R.all_area_regular:
+                for name, exp, tol in (("total_area", R.total_area, REL * 10 * float(np.sum(R.fdiam ** 2))),
+                                       ("mean_face_area", R.mean_face_area, REL * 10 * float(np.max(R.fdiam ** 2)))):
+                    ok, val = ctx.call(name, getattr(A, name), envR.fresh(), abort=False)
+                    if not ok:
+                        continue
+                    try:
+                        err = abs(float(val) - exp)
+                    except Exception:
+                        err = float("inf")
+                    ctx.check(err <= tol, "ref", name, "differs_from_sum_of_face_areas" if name == "total_area" else "differs_from_mean_of_all_face_areas",
+                              "%s(mesh) changes with the cyclic vertex order of a face" % name, got=repr(val), expected=exp, rotation=r)
 
 
 def edge_map(EA, EB, perm):
